@@ -12,7 +12,7 @@ from ..sds_parser import SdsDecl, SdsModule, SdsType
 
 BUILTIN_TARGETS = {"Int", "String", "Boolean", "Float", "Nothing", "Any", "List", "Map", "Set", "Tuple"}
 
-POSITIONS = ["param", "result", "class_attr", "inst_attr", "superclass", "list_arg", "union_none", "union_int", "callable_param", "gen_arg", "dict_value", "ctor_param"]
+POSITIONS = ["param", "result", "class_attr", "inst_attr", "superclass", "list_arg", "union_none", "union_int", "callable_param", "gen_arg", "dict_value", "ctor_param", "inherited_param"]
 
 
 def use(pos: str, ref: str, T: str) -> str:  # noqa: N803
@@ -41,6 +41,9 @@ def use(pos: str, ref: str, T: str) -> str:  # noqa: N803
         return f"def f{T}(p: Gen{T}[{ref}]) -> None:\n    ...\n"
     if pos == "dict_value":
         return f"def f{T}() -> dict[str, {ref}]:\n    ...\n"
+    if pos == "inherited_param":
+        # a private class whose method mentions the type; shown in a public subclass here and (unit_files) in another module
+        return f"class _IB{T}:\n    def im{T}(self, p: {ref}) -> None:\n        ...\n\n\nclass K{T}(_IB{T}):\n    pass\n"
     raise AssertionError(pos)
 
 
@@ -97,6 +100,10 @@ def unit_files(T: str, tname: str, positions: list[str], second: tuple[str, str]
     parts = []
     for k, pos in enumerate(positions):
         parts.append(use(pos, ref, f"{T}{chr(97 + k)}"))
+        if pos == "inherited_param":
+            Tk = f"{T}{chr(97 + k)}"  # noqa: N806
+            udir, umod = ("/" + user).rsplit("/", 1)
+            files[f"{root}{udir}/h{Tk}.py"] = f"from .{umod[:-3]} import _IB{Tk}\n\n\nclass H{Tk}(_IB{Tk}):\n    pass\n"
     if second:
         t2, pos2 = second
         T2 = T + "z"  # noqa: N806
@@ -197,7 +204,7 @@ def run(rep: Report, tier: str, seed: int) -> None:
             units.append((f"{t1}:{p1}+{t2}:{p2}", f"{t1}:{p1}|{t2}:{p2}", unit_files(T, t1, [p1], (t2, p2))))
     rep.rule = (
         f"{len(TARGET_NAMES)} placements of the referenced class (same module, nested, sibling module/package, parent package, private module re-exported by name/alias/star and used via package or module path, "
-        "not re-exported, private class, nested in another module, enum, same short name in two modules, 4 other-library forms, 6 unmapped builtins) x 12 reference positions, one reference per tree; "
+        "not re-exported, private class, nested in another module, enum, same short name in two modules, 4 other-library forms, 6 unmapped builtins) x 13 reference positions (the 13th: parameter of a method of a private class that public subclasses in two modules show), one reference per tree; "
         f"ordered pairs of {len(pair_targets)} placements in one user module; both naming settings; oracle over the complete stub set of each run; distinct = distinct (unit label, naming)"
     )
 
